@@ -17,21 +17,21 @@ structure MArr (D : Nat) where
 
 instance {D : Nat} : Inhabited (MArr D) := ⟨⟨fun _ => 0, #[], #[], #[]⟩⟩
 
-private def boxTotal {D} (sz : Fin D → Nat) : Nat := (List.finRange D).foldl (fun p d => p * sz d) 1
+def boxTotal {D} (sz : Fin D → Nat) : Nat := (List.finRange D).foldl (fun p d => p * sz d) 1
 
 /-- strides of the flattened layout, x (dimension 0) fastest. -/
-private def stridesOf {D} (sz : Fin D → Nat) : Array Nat :=
+def stridesOf {D} (sz : Fin D → Nat) : Array Nat :=
   ((List.finRange D).foldl (fun (acc : Array Nat × Nat) d => (acc.1.push acc.2, acc.2 * sz d)) (#[], 1)).1
 
-private def sizesOf {D} (sz : Fin D → Nat) : Array Nat := Array.ofFn sz
+def sizesOf {D} (sz : Fin D → Nat) : Array Nat := Array.ofFn sz
 
-private def unlin {D} (st sa : Array Nat) (lin : Nat) : Idx D :=
+def unlin {D} (st sa : Array Nat) (lin : Nat) : Idx D :=
   fun d => (((lin / st[d.val]!) % sa[d.val]! : Nat) : Int)
 
-private def MArr.mk' {D} (sz : Fin D → Nat) (data : Array Rat) : MArr D := ⟨sz, data, stridesOf sz, sizesOf sz⟩
+def MArr.mk' {D} (sz : Fin D → Nat) (data : Array Rat) : MArr D := ⟨sz, data, stridesOf sz, sizesOf sz⟩
 
 /-- reader of a memoised array: bounds check and linear index in one pass. -/
-private def MArr.get {D} (m : MArr D) (idx : Idx D) : Rat := Id.run do
+def MArr.get {D} (m : MArr D) (idx : Idx D) : Rat := Id.run do
   let mut lin : Nat := 0
   for d in List.finRange D do
     let k := idx d
@@ -39,7 +39,7 @@ private def MArr.get {D} (m : MArr D) (idx : Idx D) : Rat := Id.run do
     lin := lin + k.toNat * m.st[d.val]!
   return m.data[lin]!
 
-private def MArr.ofFn {D} (sz : Fin D → Nat) (A : Arr D Rat) : MArr D :=
+def MArr.ofFn {D} (sz : Fin D → Nat) (A : Arr D Rat) : MArr D :=
   let st := stridesOf sz
   let sa := sizesOf sz
   ⟨sz, Array.ofFn (n := boxTotal sz) (fun lin => A (unlin st sa lin.val)), st, sa⟩
@@ -63,7 +63,7 @@ private def decodeHex : List Char → Option (List Char)
   | _ => none
 
 /-- string token `h<hex>` (ASCII only). -/
-private def str : Reader Key := do
+def str : Reader Key := do
   let t ← tok
   match t.toList with
   | 'h' :: r =>
@@ -115,7 +115,7 @@ private def spacingArg : Reader (SpacingArg Rat) := do
       pure (.mat (← listOf r (listOf c rat)))
   | _ => throw s!"bad-op:spacing:{t}"
 
-private def sdMode : Reader SDMode := do
+def sdMode : Reader SDMode := do
   let t ← tok
   match t with
   | "forward" => pure .forward
@@ -126,7 +126,7 @@ private def sdMode : Reader SDMode := do
   | "sobel" => pure .sobel
   | _ => throw s!"bad-op:mode:{t}"
 
-private def marr (D : Nat) (sz : Fin D → Nat) : Reader (MArr D) := do
+def marr (D : Nat) (sz : Fin D → Nat) : Reader (MArr D) := do
   let a ← listOf (boxTotal sz) rat
   pure (MArr.mk' sz a.toArray)
 
@@ -134,7 +134,7 @@ private def marr (D : Nat) (sz : Fin D → Nat) : Reader (MArr D) := do
 private def spacingRow (N D : Nat) (b : Nat) (s : SpacingArg Rat) : Except String (Fin D → Rat) :=
   (expandSpacing N D s).map (fun m => fun d => m b d.val)
 
-private def stepM {D} (mode : SDMode) (sz : Fin D → Nat) (sp : Fin D → Rat) (a : Fin D) (m : MArr D) : MArr D :=
+def stepM {D} (mode : SDMode) (sz : Fin D → Nat) (sp : Fin D → Rat) (a : Fin D) (m : MArr D) : MArr D :=
   MArr.ofFn sz (sdStep mode sz sp a m.get)
 
 private def fmtDict {D} (l : List (Key × Option (MArr D))) : String :=
